@@ -228,6 +228,9 @@ func runC01(cfg runCfg) error {
 			o.CNanInf = r.chance(0.2)
 		}
 		c01One(run, xmlDecCase{Kind: "decode", Opts: o, Cast: cast, Doc: doc}, root)
+		if i%5 == 0 {
+			c01Entry(run, r) // the four entry points under a decoder configuration (c01entry.go)
+		}
 	}
 	return run.finish()
 }
